@@ -259,6 +259,19 @@ def replay(path, prop, clauses, algos=ALGOS):
     inp = proj.inp_record(w["ot"], w["st"], w["lm"], w["c"])
     ctx = Context(prop, "quick", 0)
     ctx.known = []
+    algo = case.get("algo")
+    if case.get("engine") == "E3" or len(inp["ot"]) > 9:
+        # larger inputs: judged by the trace specification (Bellman layer), as in the run that recorded them
+        use = (algo,) if algo in algos else tuple(a for a in algos if a != "genall")
+        obs = observe_dtl(inp, use)
+        for name, o in obs.items():
+            print(f"observed {name}: exc={o['exc']!r} sols={o['sols'][:6]} costs={o['costs'][:6]}")
+        verdicts, index = validate_events(ctx, list(events_of(inp, obs)), "TraceDTL")
+        bad = [(index[n], cl) for n, cl in verdicts]
+        for event, cl in bad:
+            print(f"VIOLATION property={prop} replay={path}")
+            print(f"  recorded {event['op']}/{event['policy']} run fails {cl}")
+        return 1 if bad else 0
     expect = tlc_generate(ctx, [inp], "replay (L0)", invariants=())
     algo = case.get("algo")
     use = (algo,) if algo in algos else algos
